@@ -239,7 +239,7 @@ def gimbal_band_traces():
                             falsify=Ob("falsify", "abs_err", "bound", kind="le", tol=1e-9)),
                          Ob("in-band result: roll = 0", "roll", None)],
                         functions=[SO3EulerLieGroup.from_Matrix], decide=cells(series="closed", gimbal=pole), requires_smt=req, smt_timeout=30, budget_s=900,
-                        definedness=False, lemmas=["L-TRIG-MONO: cos(pitch) < sin(1e-3) < 1e-3 when |pitch -+ pi/2| < 1e-3 (monotonicity of cos, stated)"],
+                        definedness=False, lemmas=["L-TRIG-MONO: |cos(pitch)| < 1e-3 when |pitch -+ pi/2| < 1e-3 (Lean 4 / mathlib: lemmas/TrigMono.lean)"],
                         note=f"{pole} band cell: the gimbal test of from_Matrix decided true; requires sin(pitch) {'>' if sgn > 0 else '<'} 0, cos(pitch) >= 0"))
     return T
 
@@ -354,6 +354,6 @@ TRUSTED = ["A-GRAPH, A-REAL, own ring engine (see C01)", "z3 4.x / cvc5 (QF_NRA)
 ASSUMPTIONS = [
     "lemma L-SO3 (not machine-checked): every rotation matrix is R(q) for a unit quaternion q of either sign (sort of the from_Matrix inputs)",
     "exactness claim: requires Euler pitch outside the +-1e-3 rad gimbal band; inside the band the tolerance clause is the separate obligation |M(result) - M(input)| <= 2 cos(pitch) entrywise "
-    "(C07.Euler.from_Matrix.band-north/south, proved for canonical input triples with pitch in (0, pi/2] / [-pi/2, 0) by a machine-checked proof script); cos(pitch) < 1e-3 in the band is lemma L-TRIG-MONO (stated)",
+    "(C07.Euler.from_Matrix.band-north/south, proved for canonical input triples with pitch in (0, pi/2] / [-pi/2, 0) by a machine-checked proof script); cos(pitch) < 1e-3 in the band is lemma L-TRIG-MONO (machine-checked in Lean 4 / mathlib, lemmas/TrigMono.lean)",
     "requires: quaternion -> MRP away from q0 = -1 (divisor 1 + q0), see the unchecked definedness assumptions in coverage",
 ]
